@@ -150,6 +150,11 @@ impl Store {
         })
     }
 
+    /// Source paths recorded by the previous build.
+    pub fn sources(&self) -> impl Iterator<Item = &String> {
+        self.manifest.files.keys()
+    }
+
     /// Looks up the previous build's entry for a source path.
     pub fn entry(&self, src: &str) -> Option<&FileEntry> {
         self.manifest.files.get(src)
